@@ -436,7 +436,7 @@ func (c *Ctx) lspCase(texts []string, hist []lspReq, group string) {
 	var ts, hs []string
 	used := map[string]string{}
 	for _, t := range texts {
-		pr := parser.Parse(t)
+		pr := parseSafe(t)
 		tree := dumpProgram(pr.Value)
 		if e, ok := expectedOf[t]; ok && len(pr.Errors) == 0 {
 			tree = e // what the text means: the generator's tree with the printer's ranges
